@@ -20,6 +20,9 @@ def _actions_calls(f, attr):
 
 def run(ctx):
     c, p, res = ctx.c, ctx.p, ctx.r
+    # ---- R11 rollback re-arms exactly the exit set (seeded change C03-e): states that were never exited - sibling regions of a parallel
+    #         domain - see no service restart and no second timer ------------------------------------------------------------------
+    shared.rollback_rearm(ctx, "R11")
     # ---- R1 exit < transition actions < enter in each executor -----------------
     for v in VIEWS:
         ex = roles(ctx, v).executor
